@@ -186,6 +186,14 @@ CALLS = {
     "sub": ("subtract", "a, b -> b a", [(2,), (3,)], lambda x, y: x[None, :] - y[:, None]),
     "flip": ("flip", "a [b]", [(2, 3)], lambda x: x[:, ::-1]),
     "sum2": ("sum", "[a] b", [(2, 3)], lambda x: x.sum(axis=0)),
+    # the same operation with different descriptions on SQUARE tensors: an artefact stored under another call's cache key
+    # has the right shape and the wrong values
+    "rows": ("sum", "a [b]", [(3, 3)], lambda x: x.sum(axis=1)),
+    "cols": ("sum", "[a] b", [(3, 3)], lambda x: x.sum(axis=0)),
+    "fliprows": ("flip", "a [b]", [(3, 3)], lambda x: x[:, ::-1]),
+    "flipcols": ("flip", "[a] b", [(3, 3)], lambda x: x[::-1, :]),
+    "addt": ("add", "a b, b a -> a b", [(3, 3), (3, 3)], lambda x, y: x + y.T),
+    "addn": ("add", "a b, a b -> a b", [(3, 3), (3, 3)], lambda x, y: x + y),
 }
 
 # (thread programs) items: ("call", key) | ("with", backend name, [items])
@@ -199,6 +207,17 @@ PROGRAM_POOL = [
     [("call", "add"), ("call", "add")],
     [("with", "numpy", [("with", "numpy", [("call", "sum")])])],
     [("call", "sum"), ("with", "numpy", [("call", "dot")])],
+]
+
+
+# first-time compilation of the SAME operation under different cache keys in different threads, each followed by a cached repeat
+CACHE_POOL = [
+    [("call", "rows"), ("call", "rows")],
+    [("call", "cols"), ("call", "cols")],
+    [("call", "fliprows"), ("call", "fliprows")],
+    [("call", "flipcols"), ("call", "flipcols")],
+    [("call", "addt"), ("call", "addt")],
+    [("call", "addn"), ("call", "addn")],
 ]
 
 
@@ -350,7 +369,12 @@ def gen_tasks(rng, n, nthreads_choices=(2, 2, 3)):
     tasks = []
     for i in range(n):
         nt = rng.choice(nthreads_choices)
-        progs = {"t%d" % (k + 1): rng.choice(PROGRAM_POOL) for k in range(nt)}
+        if i % 3 == 2:
+            # compile-cache focus: the threads use the same operation (pairs 0/1, 2/3, 4/5 of CACHE_POOL) with different keys
+            base = 2 * rng.randrange(len(CACHE_POOL) // 2)
+            progs = {"t%d" % (k + 1): CACHE_POOL[base + (k % 2)] for k in range(nt)}
+        else:
+            progs = {"t%d" % (k + 1): rng.choice(PROGRAM_POOL) for k in range(nt)}
         tasks.append((progs, rng.randrange(1 << 30), rng.choice([0.002, 0.01, 0.05, 0.2])))
     return tasks
 
